@@ -2,7 +2,7 @@ import MpVerif.C14.Model
 /-! Line driver for C14.  No logic of its own: parses a case line, calls `readSol`,
 prints the result canonically.
 
-`case <id> <nVars> <nCons> <optRv> <dualAct> <primalAct> <sufAct> <hex bytes | ->`
+`case <id> <fx 0|1> <nVars> <nCons> <optRv> <dualAct> <primalAct> <sufAct> <hex bytes | ->`
 act ::= `all` | `some:<k>` | `err:<k>:<code number>` -/
 open MpVerif.C14
 
@@ -60,12 +60,12 @@ def showEvent : Event → String
 
 def runCase (w : List String) : String :=
   match w with
-  | ["case", id, nv, nc, rv, da, pa, sa, bytes] =>
-    match nv.toNat?, nc.toNat?, rv.toInt?, parseAct da, parseAct pa, parseAct sa, unhex bytes with
-    | some nv, some nc, some rv, some da, some pa, some sa, some bytes =>
-      let r := readSol nv nc ⟨rv, da, pa, sa⟩ bytes
+  | ["case", id, fx, nv, nc, rv, da, pa, sa, bytes] =>
+    match fx.toNat?, nv.toNat?, nc.toNat?, rv.toInt?, parseAct da, parseAct pa, parseAct sa, unhex bytes with
+    | some fx, some nv, some nc, some rv, some da, some pa, some sa, some bytes =>
+      let r := readSol (fx != 0) nv nc ⟨rv, da, pa, sa⟩ bytes
       s!"{id} code={r.code.toStr} msg={if r.hasMsg then 1 else 0} | {" ; ".intercalate (r.evs.map showEvent)}"
-    | _, _, _, _, _, _, _ => "bad-op"
+    | _, _, _, _, _, _, _, _ => "bad-op"
   | _ => "bad-op"
 
 partial def loop (h : IO.FS.Stream) (out : IO.FS.Stream) : IO Unit := do
